@@ -6,7 +6,8 @@ set -u
 D="$1"; RS=/var/tmp/repo-s; T=/var/tmp/repo-s-target
 if [ ! -d "$RS" ]; then git -C /repo worktree add -q --detach "$RS" HEAD; fi
 clean() { git -C "$RS" checkout -q -- . ; git -C "$RS" clean -fdq; }
-clean; git -C "$RS" checkout -q --detach "$(git -C /repo rev-parse HEAD)"
+# SEED_BASE: the /repo commit the seeded patch was written against (default: current HEAD)
+clean; git -C "$RS" checkout -q --detach "${SEED_BASE:-$(git -C /repo rev-parse HEAD)}"
 git -C "$RS" apply "$D/patch.diff" || { echo "CONFIRM: patch does not apply"; exit 2; }
 suite=$(cd "$RS" && CARGO_TARGET_DIR=$T cargo test --workspace --no-fail-fast --offline 2>&1 | awk '/^test result/ {p+=$4; f+=$6} /^error/ {e=1} END {print "passed=" p " failed=" f (e? " BUILD-ERROR":"")}')
 echo "CONFIRM suite with patch: $suite"
